@@ -1,7 +1,7 @@
 """History generator for CC_Stack (container `stack`, harness/shim_stack.c, Driver/Stack.lean).
 
 Op vocabulary (`o=<slot>` selects the stack, default slot 0):
-  new cap=<n> exp=<decimal> | new_default | mk_new to=<k> cap=<n> exp=<decimal>
+  new cap=<n> exp=<decimal> | new_default | mk_new to=<k> cap=<n> exp=<decimal> | mk_new_default to=<k>
   push v | pop | peek | size | map | filter_mut | mk_filter to=<k>
   it_new | it_next | it_replace v | zit_new o=<k> p=<j> (p = k allowed: the same stack on both sides) | zit_next | zit_replace v w
   drop o=<k> | destroy | destroy_cb
@@ -98,6 +98,12 @@ class StackGen:
             for cap, ex in ((1, 2 ** 61), (1, 2 ** 63), (2, 2 ** 60), (1, 2 ** 64)):
                 out.append([f"new cap={cap} exp={ex}"] + [f"push {i}" for i in range(1, cap + 3)] + ["pop", "push 9", "destroy"])
         out.append(["new cap=2", "push 1", "push 2", "push 3", "mk_filter to=1", "destroy_cb"])
+        if focus in ("derived", "all"):
+            for conf_first in (True, False):
+                for k, dst in ((1, 2), (2, 1), (3, 1)):
+                    for cap, ex in ((1, "2"), (2, "1.5"), (8, "2")):
+                        for head in ("new cap=2 exp=2", "new_default"):
+                            out.append([head] + self.recreate_other_triple(k, dst, conf_first, cap, ex) + ["push 1", "destroy"])
         return out
 
     def random(self, rng, n, tier, focus=None):
@@ -112,6 +118,12 @@ class StackGen:
             ops = ["new_default"]      # C-library allocator triple (capacity 8, factor 2)
         L = {0: []}
         length = rng.randint(1, 70)
+        if focus in ("derived", "all") and rng.random() < 0.3:
+            # early in the history: destroy + re-creation in the same slot with the other allocator triple
+            k, dst = rng.choice([(1, 2), (2, 1), (3, 2), (1, 3)])
+            vals = tuple(pick_value(rng) for _ in range(rng.randint(2, 5)))
+            ops += self.recreate_other_triple(k, dst, rng.random() < 0.5, rng.randint(1, 8), rng.choice(FACTORS[2:]), vals)
+            length += len(ops)
         table = [("push", 12), ("pop", 8), ("peek", 3), ("size", 1), ("map", 1), ("filter_mut", 1), ("mk_filter", 1.5),
                  ("mk_new", 1), ("drop", 1), ("other", 6), ("iter_prog", 2), ("zip_prog", 1.5)]
         if focus == "growth":
@@ -208,6 +220,20 @@ class StackGen:
             if rng.random() < 0.03:
                 p_push = rng.choice([0.2, 0.5, 0.9])
         ops.append("destroy_cb" if rng.random() < 0.15 else "destroy")
+        return ops
+
+    def recreate_other_triple(self, k=1, dst=2, conf_first=True, cap=2, ex="2", vals=(2, 5, 4, 7)):
+        """a stack is built in slot k, used, destroyed, and immediately re-created in the same slot with the
+        OTHER allocator triple (nothing is allocated in between, so the allocator may hand out the same
+        addresses); then `cc_stack_filter` derives a stack from it, the derived stack is grown by pushes
+        (it starts with the default capacity 8), observed and dropped"""
+        mk_a = f"mk_new to={k} cap={cap} exp={ex}"
+        mk_b = f"mk_new_default to={k}"
+        first, second = (mk_a, mk_b) if conf_first else (mk_b, mk_a)
+        ops = [first, f"push 1 o={k}", f"push 3 o={k}", f"drop o={k}", second] + [f"push {v} o={k}" for v in vals]
+        for _ in range(2):
+            ops += [f"mk_filter to={dst} o={k}"] + [f"push {10 + i} o={dst}" for i in range(9)] + ["observe", f"pop o={dst}", f"drop o={dst}"]
+        ops += [f"push 6 o={k}", "observe", f"drop o={k}"]
         return ops
 
     def fault_seeds(self, tier):
